@@ -33,6 +33,7 @@ import (
 )
 
 type RichOpts struct {
+	CommitDelay bool // the consensus engine's real timing of validator-set changes (World.delay)
 	NBlocks    int
 	NAcc, NVal int  // must be the values the replicas are built with (c01Run); NAcc >= NVal+6
 	Custody    int  // 0: no custody messages; 1: custody records whose maps hold at most one entry (deterministic); 2: multi-entry maps (recorded finding C01/custody/map-marshal-order)
@@ -313,7 +314,7 @@ func richGenerate(r *Rec, o RichOpts) []c01Raw {
 	if o.NAcc < o.NVal+6 {
 		panic("richGenerate: NAcc must be >= NVal+6")
 	}
-	w := NewWorld(WorldOpts{NAcc: o.NAcc, NVal: o.NVal, SudoAccs: []int{o.NAcc - 1}})
+	w := NewWorld(WorldOpts{NAcc: o.NAcc, NVal: o.NVal, SudoAccs: []int{o.NAcc - 1}, CommitDelay: o.CommitDelay})
 	g := &richGen{r: r, o: o, w: w, sudo: o.NAcc - 1, idx: map[string]int{}, tries: map[string]int{}, oks: map[string]int{}, custKey: map[int]int{}, secretGen: map[int]int{},
 		spareUsed: map[int]bool{}, absentUntil: map[string]int{}, nVal: o.NVal, debug: os.Getenv("RICH_DEBUG") != ""}
 	for j := 0; j < richSpares; j++ {
@@ -334,7 +335,7 @@ func richGenerate(r *Rec, o RichOpts) []c01Raw {
 	hasher := sha256.New()
 	var out []c01Raw
 	for b := 0; b < o.NBlocks; b++ {
-		raw := c01Raw{absent: map[int]bool{}, dt: time.Duration(3+g.rn(8)) * time.Second}
+		raw := c01Raw{absent: map[int]bool{}, dt: time.Duration(3+g.rn(8)) * time.Second, delay: o.CommitDelay}
 		g.raw, g.b, g.nTx = &raw, b, map[int]int{}
 		g.blkStatusTx, g.blkRotation, g.blkPause, g.sealed = false, false, false, map[int]bool{}
 		g.ctx = w.ReadCtx()
@@ -465,12 +466,12 @@ func (g *richGen) blockEnvironment() {
 	case x < 18 || (x < 26 && len(g.w.app.MultiStakingKeeper.GetAllUndelegations(g.ctx)) > 0):
 		raw.dt = time.Duration(605000+g.rn(100000)) * time.Second // unstaking period (one week is the least the chain accepts)
 	}
-	vs := g.w.valSet.Validators
+	vs := g.w.CommitSet().Validators // the validators whose votes the next block's LastCommitInfo carries
 	n := len(vs)
 	if n == 0 {
 		return
 	}
-	raw.proposer = g.rn(n)
+	raw.proposer = g.rn(len(g.w.ProposerSet().Validators))
 	active := g.activeValidators()
 	// index of a validator of the consensus set by address
 	inSet := func(addr []byte) int {
